@@ -18,6 +18,7 @@ import (
 	"crypto/x509/pkix"
 	"errors"
 	"fmt"
+	"io"
 	"math/big"
 	"math/rand"
 	"net"
@@ -27,6 +28,7 @@ import (
 	"time"
 
 	"github.com/valyala/fasthttp"
+	"github.com/valyala/fasthttp/fasthttpproxy"
 	"github.com/valyala/fasthttp/fasthttputil"
 	"verif/harness/hlib"
 )
@@ -36,13 +38,14 @@ import (
 type hopD struct {
 	Scheme  string   `json:"scheme"`            // effective scheme of this hop (lower case): http | https | ftp
 	Host    string   `json:"host"`              // effective authority (lower case)
-	Form    string   `json:"form,omitempty"`    // how the URL is spelled: abs | upper | schemerel | pathrel | hosthdr
+	Form    string   `json:"form,omitempty"`    // how the URL is spelled: abs | upper | schemerel | pathrel | hosthdr | setscheme | sethost | seturi
 	Replies []string `json:"replies,omitempty"` // per attempt: keep | close | fail   (default keep)
 }
 
 type callD struct {
-	Via    string `json:"via"` // client | host | lb
-	API    string `json:"api"` // do | timeout | deadline | redirects | get
+	Via     string `json:"via"` // client | host | lb   (candidates only: pipe = PipelineClient built from hcs[HC]; flip = toggle hcs[HC].IsTLS)
+	API     string `json:"api"` // do | timeout | deadline | redirects | get | gettimeout | getdeadline | post
+	TLSFail int    `json:"tlsfail,omitempty"` // the servers abort the next TLSFail TLS handshakes (observation-only history)
 	HC     int    `json:"hc,omitempty"`
 	MaxRed int    `json:"maxred,omitempty"`
 	Hops   []hopD `json:"hops"`
@@ -64,6 +67,10 @@ type desc struct {
 	CWT   int     `json:"cwt,omitempty"` // Client.WriteTimeout ms
 	CRT   int     `json:"crt,omitempty"` // Client.ReadTimeout ms
 	CMW   int     `json:"cmw,omitempty"` // Client.MaxConnWaitTimeout ms
+	Reuse  bool   `json:"reuse,omitempty"`  // one Request/Response object for all calls, never Reset
+	Dialer string `json:"dialer,omitempty"` // "" Dial into pipes | timeout: DialTimeout into pipes | tcp | tcpdual: default dialer, real
+	//                                         TCP to 127.0.0.1 (hosts "@0", "@1") | proxy: fasthttpproxy.FasthttpHTTPDialer through a local CONNECT proxy
+	Conf int `json:"conf,omitempty"` // Client.ConfigureClient: 0 nil, 1 flips IsTLS, 2 sets Addr, 3 fails, 4 sets WriteTimeout
 	Addr  hlib.B  `json:"addr,omitempty"`
 	TLS   bool    `json:"tls,omitempty"`
 }
@@ -109,22 +116,118 @@ type network struct {
 	writes  []writeRec
 	scripts map[int]*hopScript
 	wg      sync.WaitGroup
+	failTLS int // abort this many further TLS handshakes
+	lns     []net.Listener
+}
+
+// real TCP listeners on 127.0.0.1 (default-dialer modes): every accepted connection is a dial to that listener's address
+func (n *network) listen() string {
+	ln, err := net.Listen("tcp4", "127.0.0.1:0")
+	if err != nil {
+		panic(err)
+	}
+	n.lns = append(n.lns, ln)
+	addr := ln.Addr().String()
+	go func() {
+		for {
+			c, err := ln.Accept()
+			if err != nil {
+				return
+			}
+			n.mu.Lock()
+			rc := &recConn{Conn: c, cid: len(n.dials), addr: addr, recRead: true}
+			n.dials = append(n.dials, rc)
+			n.mu.Unlock()
+			n.wg.Add(1)
+			go n.serve(rc, rc.cid)
+		}
+	}()
+	return addr
+}
+
+// a CONNECT proxy: the tunnel target is the dial address; what follows the tunnel set-up is what the client wrote "to" it
+func (n *network) listenProxy() string {
+	ln, err := net.Listen("tcp4", "127.0.0.1:0")
+	if err != nil {
+		panic(err)
+	}
+	n.lns = append(n.lns, ln)
+	go func() {
+		for {
+			c, err := ln.Accept()
+			if err != nil {
+				return
+			}
+			go func() {
+				br := bufio.NewReader(c)
+				line, err := br.ReadString('\n')
+				if err != nil || !strings.HasPrefix(line, "CONNECT ") {
+					c.Close()
+					return
+				}
+				target := strings.Fields(line)[1]
+				for { // rest of the CONNECT header
+					l, err := br.ReadString('\n')
+					if err != nil {
+						c.Close()
+						return
+					}
+					if l == "\r\n" || l == "\n" {
+						break
+					}
+				}
+				if _, err := c.Write([]byte("HTTP/1.1 200 Connection established\r\n\r\n")); err != nil {
+					c.Close()
+					return
+				}
+				n.mu.Lock()
+				rc := &recConn{Conn: c, cid: len(n.dials), addr: target, recRead: true, rd: br}
+				n.dials = append(n.dials, rc)
+				n.mu.Unlock()
+				n.wg.Add(1)
+				n.serve(rc, rc.cid)
+			}()
+		}
+	}()
+	return ln.Addr().String()
 }
 
 type recConn struct {
 	net.Conn
-	cid  int
-	addr string
-	mu   sync.Mutex
-	raw  []byte
+	cid     int
+	addr    string
+	mu      sync.Mutex
+	raw     []byte
+	recRead bool      // server-side recorder (tcp / proxy modes): what the client sent is what we read
+	rd      io.Reader // when set, reads come from here (bytes already buffered by the proxy front end)
+}
+
+func (c *recConn) Read(p []byte) (int, error) {
+	var n int
+	var err error
+	if c.rd != nil {
+		n, err = c.rd.Read(p)
+	} else {
+		n, err = c.Conn.Read(p)
+	}
+	if c.recRead && n > 0 {
+		c.mu.Lock()
+		if len(c.raw) < 1<<16 {
+			c.raw = append(c.raw, p[:n]...)
+		}
+		c.mu.Unlock()
+	}
+	return n, err
 }
 
 func (c *recConn) Write(p []byte) (int, error) {
-	c.mu.Lock()
-	if len(c.raw) < 1<<16 {
-		c.raw = append(c.raw, p...)
+	if !c.recRead {
+		c.mu.Lock()
+		if len(c.raw) < 1<<16 {
+			c.raw = append(c.raw, p...)
+		}
+		c.mu.Unlock()
 	}
-	c.mu.Unlock()
 	return c.Conn.Write(p)
 }
 
@@ -166,6 +269,15 @@ func (n *network) serve(raw net.Conn, cid int) {
 	var conn net.Conn = &bufConn{Conn: raw, r: br0}
 	viaTLS := false
 	if first[0] == 0x16 {
+		n.mu.Lock()
+		abort := n.failTLS > 0
+		if abort {
+			n.failTLS--
+		}
+		n.mu.Unlock()
+		if abort {
+			return
+		}
 		tc := tls.Server(conn, serverTLS)
 		if err := tc.Handshake(); err != nil {
 			return
@@ -272,6 +384,8 @@ func errClass(err error) int {
 		return 5
 	case errors.Is(err, fasthttp.ErrNoAvailableClients):
 		return 6
+	case strings.Contains(err.Error(), "verif: configure refused"):
+		return 8
 	default:
 		return 4
 	}
@@ -284,17 +398,80 @@ type histResult struct {
 	outs   []string
 	picks  []int // LB picks in call order (one per lb call)
 	sig    string
+	obsOnly bool   // judged by the property oracle only
+	key     string // candidate-finding class
+	hcs     []hcD  // stand-alone HostClients with their real addresses
+}
+
+type nullLogger struct{}
+
+func (nullLogger) Printf(string, ...any) {}
+
+func followsRedirects(api string) bool {
+	switch api {
+	case "redirects", "get", "gettimeout", "getdeadline", "post":
+		return true
+	}
+	return false
+}
+
+func subst(s string, addrs []string) string {
+	for i, a := range addrs {
+		s = strings.ReplaceAll(s, "@"+strconv.Itoa(i), a)
+	}
+	return s
 }
 
 func runHist(d desc) (coqCalls []string, res histResult) {
 	nw := &network{scripts: map[int]*hopScript{}}
 	cliTLS := &tls.Config{InsecureSkipVerify: true} // #nosec G402 -- in-process test certificate
 	ms := func(n int) time.Duration { return time.Duration(n) * time.Millisecond }
-	client := &fasthttp.Client{Dial: nw.dial, TLSConfig: cliTLS, NoDefaultUserAgentHeader: true,
+
+	// the dialer configuration
+	var dial fasthttp.DialFunc
+	var dialT fasthttp.DialFuncWithTimeout
+	dual := false
+	switch d.Dialer {
+	case "timeout":
+		dialT = func(addr string, _ time.Duration) (net.Conn, error) { return nw.dial(addr) }
+	case "tcp", "tcpdual":
+		addrs := []string{nw.listen(), nw.listen()}
+		dual = d.Dialer == "tcpdual"
+		// deep copy with the listener addresses substituted for "@0" / "@1"
+		hcsCopy := append([]hcD(nil), d.HCs...)
+		for i := range hcsCopy {
+			hcsCopy[i].Addr = subst(hcsCopy[i].Addr, addrs)
+		}
+		d.HCs = hcsCopy
+		calls := make([]callD, len(d.Calls))
+		for i, c := range d.Calls {
+			c.Hops = append([]hopD(nil), c.Hops...)
+			for j := range c.Hops {
+				c.Hops[j].Host = subst(c.Hops[j].Host, addrs)
+			}
+			calls[i] = c
+		}
+		d.Calls = calls
+	case "proxy":
+		dial = fasthttpproxy.FasthttpHTTPDialer(nw.listenProxy())
+	default:
+		dial = nw.dial
+	}
+	client := &fasthttp.Client{Dial: dial, DialTimeout: dialT, DialDualStack: dual, TLSConfig: cliTLS, NoDefaultUserAgentHeader: true,
 		WriteTimeout: ms(d.CWT), ReadTimeout: ms(d.CRT), MaxConnWaitTimeout: ms(d.CMW)}
+	switch d.Conf {
+	case 1:
+		client.ConfigureClient = func(hc *fasthttp.HostClient) error { hc.IsTLS = !hc.IsTLS; return nil }
+	case 2:
+		client.ConfigureClient = func(hc *fasthttp.HostClient) error { hc.Addr = "c.test:9"; return nil }
+	case 3:
+		client.ConfigureClient = func(hc *fasthttp.HostClient) error { return errors.New("verif: configure refused") }
+	case 4:
+		client.ConfigureClient = func(hc *fasthttp.HostClient) error { hc.WriteTimeout = 4 * time.Second; return nil }
+	}
 	var hcs []*fasthttp.HostClient
 	for _, h := range d.HCs {
-		hcs = append(hcs, &fasthttp.HostClient{Addr: h.Addr, IsTLS: h.TLS, Dial: nw.dial, TLSConfig: cliTLS,
+		hcs = append(hcs, &fasthttp.HostClient{Addr: h.Addr, IsTLS: h.TLS, Dial: dial, DialTimeout: dialT, DialDualStack: dual, TLSConfig: cliTLS,
 			WriteTimeout: ms(h.WT), ReadTimeout: ms(h.RT), MaxConnWaitTimeout: ms(h.MW)})
 	}
 	var picks []int
@@ -304,6 +481,13 @@ func runHist(d desc) (coqCalls []string, res histResult) {
 			lb.Clients = append(lb.Clients, &lbWrap{hc: hcs[i], idx: i, pick: &picks})
 		}
 	}
+	pipes := map[int]*fasthttp.PipelineClient{}
+	var sharedReq *fasthttp.Request
+	var sharedResp *fasthttp.Response
+	if d.Reuse {
+		sharedReq, sharedResp = fasthttp.AcquireRequest(), fasthttp.AcquireResponse()
+	}
+	res.hcs = d.HCs
 
 	rid := 0
 	type reqInfo struct {
@@ -314,7 +498,19 @@ func runHist(d desc) (coqCalls []string, res histResult) {
 	var all []reqInfo
 	var sigParts []string
 	for _, c := range d.Calls {
+		if c.Via == "flip" {
+			// candidate scenario: the user changes IsTLS of a HostClient that already has pooled connections
+			if c.HC >= 0 && c.HC < len(hcs) {
+				hcs[c.HC].IsTLS = !hcs[c.HC].IsTLS
+				res.obsOnly = true
+				res.key = "cand-istls-flip-keeps-pool"
+			}
+			continue
+		}
 		if len(c.Hops) == 0 {
+			continue
+		}
+		if (c.Via == "host" || c.Via == "pipe") && (c.HC < 0 || c.HC >= len(hcs)) {
 			continue
 		}
 		if c.Via == "lb" && len(lb.Clients) == 0 {
@@ -324,7 +520,7 @@ func runHist(d desc) (coqCalls []string, res histResult) {
 			continue
 		}
 		hops := c.Hops
-		if c.Via == "lb" || (c.API != "redirects" && c.API != "get") {
+		if c.Via == "lb" || c.Via == "pipe" || !followsRedirects(c.API) {
 			hops = hops[:1]
 		}
 		// assign request ids and install the server scripts
@@ -343,61 +539,107 @@ func runHist(d desc) (coqCalls []string, res histResult) {
 		}
 		rid += len(hops)
 
-		req := fasthttp.AcquireRequest()
-		resp := fasthttp.AcquireResponse()
+		req, resp := sharedReq, sharedResp
+		if !d.Reuse {
+			req, resp = fasthttp.AcquireRequest(), fasthttp.AcquireResponse()
+		}
 		h0 := hops[0]
-		if h0.Form == "hosthdr" && h0.Scheme == "http" {
+		path := "/r" + strconv.Itoa(first) + "_"
+		other := map[string]string{"http": "https", "https": "http"}[h0.Scheme]
+		switch {
+		case h0.Form == "hosthdr" && h0.Scheme == "http":
 			req.Header.SetHost(h0.Host)
-			req.SetRequestURI("/r" + strconv.Itoa(first) + "_")
-		} else {
+			req.SetRequestURI(path)
+		case h0.Form == "setscheme" && other != "":
+			// the URL string says one scheme, the URI object is then told the other one
+			req.SetRequestURI(other + "://" + h0.Host + path)
+			req.URI().SetScheme(strings.ToUpper(h0.Scheme))
+		case h0.Form == "sethost":
+			req.SetRequestURI(h0.Scheme + "://other.test:81" + path)
+			req.URI().SetHost(h0.Host)
+		case h0.Form == "seturi":
+			u := fasthttp.AcquireURI()
+			if perr := u.Parse(nil, []byte(h0.Scheme+"://"+h0.Host+path)); perr != nil {
+				panic(perr)
+			}
+			req.SetURI(u)
+			fasthttp.ReleaseURI(u)
+		default:
 			req.SetRequestURI(urlOf(h0, first, nil))
+		}
+		if c.TLSFail > 0 {
+			nw.mu.Lock()
+			nw.failTLS = c.TLSFail
+			nw.mu.Unlock()
+			res.obsOnly = true
 		}
 		var err error
 		picksBefore := len(picks)
+		url0 := urlOf(hopD{Scheme: h0.Scheme, Host: h0.Host, Form: "abs"}, first, nil)
+		type doer interface {
+			Do(*fasthttp.Request, *fasthttp.Response) error
+			DoTimeout(*fasthttp.Request, *fasthttp.Response, time.Duration) error
+			DoDeadline(*fasthttp.Request, *fasthttp.Response, time.Time) error
+			DoRedirects(*fasthttp.Request, *fasthttp.Response, int) error
+			Get([]byte, string) (int, []byte, error)
+			GetTimeout([]byte, string, time.Duration) (int, []byte, error)
+			GetDeadline([]byte, string, time.Time) (int, []byte, error)
+			Post([]byte, string, *fasthttp.Args) (int, []byte, error)
+		}
+		run := func(x doer) error {
+			var e error
+			switch c.API {
+			case "timeout":
+				e = x.DoTimeout(req, resp, 5*time.Second)
+			case "deadline":
+				e = x.DoDeadline(req, resp, time.Now().Add(5*time.Second))
+			case "redirects":
+				e = x.DoRedirects(req, resp, c.MaxRed)
+			case "get":
+				_, _, e = x.Get(nil, url0)
+			case "gettimeout":
+				_, _, e = x.GetTimeout(nil, url0, 5*time.Second)
+			case "getdeadline":
+				_, _, e = x.GetDeadline(nil, url0, time.Now().Add(5*time.Second))
+			case "post":
+				_, _, e = x.Post(nil, url0, nil)
+			default:
+				e = x.Do(req, resp)
+			}
+			return e
+		}
 		switch c.Via {
 		case "client":
-			switch c.API {
-			case "timeout":
-				err = client.DoTimeout(req, resp, 5*time.Second)
-			case "deadline":
-				err = client.DoDeadline(req, resp, time.Now().Add(5*time.Second))
-			case "redirects":
-				err = client.DoRedirects(req, resp, c.MaxRed)
-			case "get":
-				_, _, err = client.Get(nil, urlOf(h0, first, nil))
-			default:
-				err = client.Do(req, resp)
-			}
+			err = run(client)
 		case "host":
-			hc := hcs[c.HC]
-			switch c.API {
-			case "timeout":
-				err = hc.DoTimeout(req, resp, 5*time.Second)
-			case "deadline":
-				err = hc.DoDeadline(req, resp, time.Now().Add(5*time.Second))
-			case "redirects":
-				err = hc.DoRedirects(req, resp, c.MaxRed)
-			case "get":
-				_, _, err = hc.Get(nil, urlOf(h0, first, nil))
-			default:
-				err = hc.Do(req, resp)
-			}
+			err = run(hcs[c.HC])
 		case "lb":
 			err = lb.Do(req, resp)
+		case "pipe":
+			pcl := pipes[c.HC]
+			if pcl == nil {
+				pcl = &fasthttp.PipelineClient{Addr: d.HCs[c.HC].Addr, IsTLS: d.HCs[c.HC].TLS, Dial: nw.dial, TLSConfig: cliTLS, Logger: nullLogger{}}
+				pipes[c.HC] = pcl
+			}
+			err = pcl.DoTimeout(req, resp, 2*time.Second)
+			res.obsOnly = true
+			res.key = "cand-pipelineclient-ignores-scheme"
 		}
-		fasthttp.ReleaseRequest(req)
-		fasthttp.ReleaseResponse(resp)
+		if !d.Reuse {
+			fasthttp.ReleaseRequest(req)
+			fasthttp.ReleaseResponse(resp)
+		}
 		cls := errClass(err)
 		res.outs = append(res.outs, hlib.N(uint64(cls)))
 
 		// Coq term of the call
 		maxred := c.MaxRed
-		if c.API == "get" {
+		if followsRedirects(c.API) && c.API != "redirects" {
 			maxred = -1 // stands for defaultMaxRedirectsCount (translated constant)
 		}
 		var hs []string
 		for i, h := range hops {
-			via := map[string]string{"client": "ViaClient", "host": "ViaHost", "lb": "ViaLB"}[c.Via]
+			via := map[string]string{"client": "ViaClient", "host": "ViaHost", "lb": "ViaLB", "pipe": "ViaHost"}[c.Via]
 			var reps []string
 			for _, r := range h.Replies {
 				reps = append(reps, map[string]string{"keep": "RKeep", "close": "RClose", "fail": "RFail"}[r])
@@ -409,7 +651,7 @@ func runHist(d desc) (coqCalls []string, res histResult) {
 		switch c.Via {
 		case "client":
 			coqCalls = append(coqCalls, hlib.App("CClient", hlib.Z(int64(maxred)), hlib.List(hs)))
-		case "host":
+		case "host", "pipe":
 			coqCalls = append(coqCalls, hlib.App("CHost", hlib.Nat(c.HC), hlib.Z(int64(maxred)), hlib.List(hs)))
 		case "lb":
 			pick := 999
@@ -429,6 +671,9 @@ func runHist(d desc) (coqCalls []string, res histResult) {
 	nw.mu.Lock()
 	conns := append([]*recConn(nil), nw.dials...)
 	nw.mu.Unlock()
+	for _, ln := range nw.lns {
+		ln.Close()
+	}
 	for _, c := range conns {
 		c.Conn.Close()
 	}
@@ -502,7 +747,7 @@ func genHop(r *rand.Rand, prev *hopD) hopD {
 }
 
 func genCall(r *rand.Rand, nHC int, hasLB bool) callD {
-	c := callD{Via: "client", API: hlib.Pick(r, []string{"do", "do", "timeout", "deadline", "redirects", "redirects", "redirects", "get"})}
+	c := callD{Via: "client", API: hlib.Pick(r, []string{"do", "do", "timeout", "deadline", "redirects", "redirects", "redirects", "get", "gettimeout", "getdeadline", "post"})}
 	switch r.Intn(10) {
 	case 0, 1, 2:
 		if nHC > 0 {
@@ -515,7 +760,7 @@ func genCall(r *rand.Rand, nHC int, hasLB bool) callD {
 		}
 	}
 	n := 1
-	if c.API == "redirects" || c.API == "get" {
+	if followsRedirects(c.API) {
 		n = 1 + r.Intn(4)
 	}
 	c.MaxRed = r.Intn(4)
@@ -525,6 +770,15 @@ func genCall(r *rand.Rand, nHC int, hasLB bool) callD {
 	var prev *hopD
 	for i := 0; i < n; i++ {
 		h := genHop(r, prev)
+		if i == 0 && r.Intn(5) == 0 {
+			h.Form = hlib.Pick(r, []string{"setscheme", "sethost", "seturi"})
+			if h.Scheme == "ftp" {
+				h.Form = "abs"
+			}
+		}
+		if c.API == "post" {
+			h.Replies = nil // POST is not retried: keep the model's idempotent-retry assumption out of the way
+		}
 		c.Hops = append(c.Hops, h)
 		prev = &c.Hops[len(c.Hops)-1]
 	}
@@ -558,6 +812,45 @@ func gen(r *rand.Rand, i int) desc {
 	nc := 1 + r.Intn(6)
 	for j := 0; j < nc; j++ {
 		d.Calls = append(d.Calls, genCall(r, nHC, len(d.LB) > 0))
+	}
+	d.Reuse = r.Intn(3) == 0
+	switch r.Intn(20) {
+	case 0, 1:
+		d.Conf = 1 + r.Intn(4)
+	}
+	switch r.Intn(20) {
+	case 0, 1:
+		d.Dialer = "timeout"
+	case 2:
+		d.Dialer = "proxy"
+	case 3, 4:
+		// default dialers over real TCP: only the two listener addresses exist
+		d.Dialer = hlib.Pick(r, []string{"tcp", "tcpdual"})
+		if d.Conf == 2 {
+			d.Conf = 4 // "c.test:9" cannot be dialled for real (dial errors are not modelled)
+		}
+		for i := range d.HCs {
+			d.HCs[i].Addr = hlib.Pick(r, []string{"@0", "@1"})
+		}
+		for i := range d.Calls {
+			for j := range d.Calls[i].Hops {
+				h := &d.Calls[i].Hops[j]
+				if h.Form != "pathrel" {
+					h.Host = hlib.Pick(r, []string{"@0", "@1", "@0"})
+				} else if j > 0 {
+					h.Host = d.Calls[i].Hops[j-1].Host
+				}
+				if h.Form == "upper" {
+					h.Form = "abs"
+				}
+			}
+		}
+	}
+	if r.Intn(25) == 0 && d.Dialer == "" {
+		// TLS handshakes aborted by the server: no fallback to plaintext (observation-only)
+		for i := range d.Calls {
+			d.Calls[i].TLSFail = r.Intn(4)
+		}
 	}
 	return d
 }
@@ -637,6 +930,67 @@ func corpus() []desc {
 		w.CWT = 4000
 		c = append(c, v, w)
 	}
+
+	// ---- coverage audit additions ---------------------------------------------------------------------------------------
+	fh := func(s, h, form string) hopD { return hopD{Scheme: s, Host: h, Form: form} }
+	both := func(d desc) { // without and with WriteTimeout (the two dialAddr branches)
+		c = append(c, d)
+		d2 := d
+		d2.CWT = 4000
+		d2.HCs = nil
+		for _, h := range d.HCs {
+			h.WT = 4000
+			d2.HCs = append(d2.HCs, h)
+		}
+		c = append(c, d2)
+	}
+	// URI-object setters decide the scheme / host after the URL string was given
+	both(one(cl("do", 0, fh("https", "a.test", "setscheme")), cl("do", 0, fh("http", "a.test", "setscheme")),
+		cl("redirects", 4, fh("https", "a.test", "setscheme"), hop("http", "a.test")), cl("timeout", 0, fh("https", "b.test", "sethost")),
+		cl("deadline", 0, fh("https", "a.test:8443", "seturi")), cl("do", 0, fh("http", "a.test", "seturi"))))
+	both(one(hc(0, "do", 0, fh("https", "a.test", "setscheme")), hc(1, "do", 0, fh("http", "a.test", "setscheme")),
+		hc(1, "do", 0, fh("https", "b.test", "sethost")), hc(0, "redirects", 4, fh("http", "a.test", "seturi"), hop("https", "a.test")),
+		callD{Via: "lb", API: "do", Hops: []hopD{fh("https", "a.test", "setscheme")}}, callD{Via: "lb", API: "do", Hops: []hopD{fh("http", "a.test", "setscheme")}}))
+	// one Request/Response object reused for everything, never Reset
+	reuse := one(cl("do", 0, fh("http", "a.test", "hosthdr")), cl("do", 0, hop("https", "a.test")), cl("do", 0, hop("http", "a.test")),
+		cl("redirects", 4, hop("https", "b.test"), hop("http", "b.test")), cl("do", 0, fh("https", "a.test", "setscheme")), cl("do", 0, hop("http", "a.test")),
+		hc(0, "do", 0, hop("https", "a.test")), hc(1, "do", 0, hop("https", "a.test")), hc(1, "do", 0, hop("http", "a.test")))
+	reuse.Reuse = true
+	both(reuse)
+	// the remaining URL-based entry points
+	both(one(cl("gettimeout", 0, hop("http", "a.test"), hop("https", "a.test")), cl("getdeadline", 0, hop("https", "a.test"), hop("http", "a.test")),
+		cl("post", 0, hop("http", "b.test"), hop("https", "b.test")), hc(0, "gettimeout", 0, hop("http", "a.test"), hop("https", "a.test")),
+		hc(1, "getdeadline", 0, hop("https", "a.test"), hop("http", "a.test")), hc(1, "post", 0, hop("https", "a.test"))))
+	// Client.ConfigureClient
+	for conf := 1; conf <= 4; conf++ {
+		d := one(cl("do", 0, hop("http", "a.test")), cl("do", 0, hop("https", "a.test")), cl("redirects", 4, hop("http", "b.test"), hop("https", "b.test")),
+			cl("do", 0, hop("https", "a.test")), hc(1, "do", 0, hop("https", "a.test")))
+		d.Conf = conf
+		both(d)
+	}
+	// other dialers: DialTimeout, the default dialers over real TCP (plain and dual stack), fasthttpproxy's CONNECT dialer
+	for _, dl := range []string{"timeout", "proxy"} {
+		d := one(cl("do", 0, hop("http", "a.test")), cl("do", 0, hop("https", "a.test")), cl("do", 0, hop("http", "a.test:443")),
+			cl("redirects", 4, hop("http", "a.test"), hop("https", "a.test"), hop("http", "a.test")), hc(1, "do", 0, hop("https", "a.test")),
+			hc(0, "do", 0, hop("https", "a.test")), callD{Via: "lb", API: "do", Hops: []hopD{hop("https", "a.test")}}, cl("do", 0, hop("https", "a.test", "fail", "keep")))
+		d.Dialer = dl
+		both(d)
+	}
+	for _, dl := range []string{"tcp", "tcpdual"} {
+		d := desc{Op: "hist", Dialer: dl, HCs: []hcD{{Addr: "@0", TLS: false}, {Addr: "@1", TLS: true}}, LB: []int{0, 1},
+			Calls: []callD{cl("do", 0, hop("http", "@0")), cl("do", 0, hop("https", "@0")), cl("do", 0, hop("http", "@0")), cl("do", 0, hop("https", "@0")),
+				cl("redirects", 4, hop("http", "@1"), hop("https", "@1"), hop("http", "@0")), hc(0, "do", 0, hop("http", "@0")), hc(0, "do", 0, hop("https", "@0")),
+				hc(1, "do", 0, hop("https", "@1")), hc(1, "do", 0, hop("http", "@1")), callD{Via: "lb", API: "do", Hops: []hopD{hop("https", "@1")}},
+				cl("get", 0, hop("https", "@1", "close"), hop("http", "@1"))}}
+		both(d)
+	}
+	// the server aborts TLS handshakes: the request must not fall back to a plaintext connection (observation-only)
+	for _, k := range []int{1, 2, 6} {
+		d := one(callD{Via: "client", API: "do", TLSFail: k, Hops: []hopD{hop("https", "a.test")}}, cl("do", 0, hop("http", "a.test")),
+			callD{Via: "host", HC: 1, API: "do", TLSFail: k, Hops: []hopD{hop("https", "a.test")}},
+			callD{Via: "client", API: "redirects", MaxRed: 4, TLSFail: k, Hops: []hopD{hop("http", "b.test"), hop("https", "b.test")}})
+		both(d)
+	}
 	return c
 }
 
@@ -648,15 +1002,27 @@ func run(d desc) hlib.Case {
 	}
 	calls, res := runHist(d)
 	var hcs []string
-	for _, h := range d.HCs {
+	for _, h := range res.hcs {
 		hcs = append(hcs, hlib.Tuple(hlib.HexS(h.Addr), hlib.Bool(h.TLS), hlib.Bool(h.WT != 0)))
 	}
-	cfgSig := fmt.Sprintf("|w%v", d.CWT != 0)
+	cfgSig := fmt.Sprintf("|w%v|%s|c%d|r%v", d.CWT != 0, d.Dialer, d.Conf, d.Reuse)
 	for _, h := range d.HCs {
 		cfgSig += fmt.Sprintf("%v%v", h.TLS, h.WT != 0)
 	}
-	return hlib.Case{Kind: "hist", Size: len(res.writes), Sig: res.sig + cfgSig,
-		Coq: hlib.App("C21Hist", hlib.Bool(d.CWT != 0), hlib.List(hcs), hlib.List(calls), hlib.List(res.dials), hlib.List(res.writes), hlib.List(res.plain), hlib.List(res.outs))}
+	kind := "hist"
+	if d.Dialer != "" {
+		kind = "hist-" + d.Dialer
+	}
+	if res.obsOnly {
+		k := "hist-obs"
+		if res.key != "" {
+			k = "hist-candidate"
+		}
+		return hlib.Case{Kind: k, Key: res.key, Size: len(res.writes), Sig: res.sig + cfgSig,
+			Coq: hlib.App("C21Obs", hlib.Bool(d.Conf != 2), hlib.List(hcs), hlib.List(calls), hlib.List(res.dials), hlib.List(res.writes), hlib.List(res.plain))}
+	}
+	return hlib.Case{Kind: kind, Size: len(res.writes), Sig: res.sig + cfgSig,
+		Coq: hlib.App("C21Hist", hlib.Bool(d.CWT != 0), hlib.N(uint64(d.Conf)), hlib.List(hcs), hlib.List(calls), hlib.List(res.dials), hlib.List(res.writes), hlib.List(res.plain), hlib.List(res.outs))}
 }
 
 func main() {
